@@ -43,6 +43,39 @@ def emitted_value(text):
     return p.instrs[0].args[0], None
 
 
+def assembled_value_issue(ctor, expected):
+    for uses in (1, 2):
+        try:
+            text = pt.compileTeal(pt.Seq(*[pt.Pop(ctor()) for _ in range(uses)], pt.Int(1)), pt.Mode.Application,
+                                  version=6, assembleConstants=True)
+        except drive.PT_ERRORS as ex:
+            return "assembleConstants=True: compile fails: %s" % (str(ex)[:80],)
+        except Exception as ex:
+            return "assembleConstants=True: compile died with %s: %s" % (type(ex).__name__, str(ex)[:80])
+        p = asm.assemble(text)
+        if p.issues:
+            return "assembleConstants=True: emitted program does not assemble: %s" % (p.issues[0],)
+        intc, bytec, vals = [], [], []
+        for ins in p.instrs:
+            if ins.op == "intcblock":
+                intc = ins.args[0]
+            elif ins.op == "bytecblock":
+                bytec = ins.args[0]
+            elif ins.op in ("pushint", "pushbytes", "int", "byte", "addr", "method"):
+                vals.append(ins.args[0])
+            elif ins.op.startswith("intc"):
+                i = int(ins.op[5:]) if "_" in ins.op else ins.args[0]
+                vals.append(intc[i] if i < len(intc) else "intc index out of range")
+            elif ins.op.startswith("bytec"):
+                i = int(ins.op[6:]) if "_" in ins.op else ins.args[0]
+                vals.append(bytec[i] if i < len(bytec) else "bytec index out of range")
+        # the literal is used `uses` times, then `int 1` for the return value
+        lit_vals = vals[:uses]
+        if len(vals) != uses + 1 or any(v != expected for v in lit_vals):
+            return "assembleConstants=True (%d use(s)): loads %r instead of %r" % (uses, lit_vals, expected)
+    return None
+
+
 def py_b16(s):
     t = s[2:] if s.startswith("0x") else s
     if len(t) % 2 or not re.fullmatch(r"[0-9A-Fa-f]*", t):
@@ -154,6 +187,12 @@ def check_one(kind, lit, out):
                     feats["breaks_line_structure"] = True
                 elif got != expected:
                     why = "pushes %r instead of %r" % (got, expected)
+                elif kind != "int" or True:
+                    # the same literal through the constant assembler (single use -> pushbytes/pushint,
+                    # double use -> constant block): the value must still be the user's
+                    why = assembled_value_issue(ctor, expected)
+                    if why:
+                        feats["assemble_constants"] = True
     if why:
         if kind == "method":
             feats["sig_has_quote_or_linebreak_or_backslash"] = any(c in lit for c in '"\n\r\\')
